@@ -37,7 +37,7 @@ Definition viol_class (k : config) (s : st) (o : op) (ob : observed) : nat :=
   | None => 0%nat
   | Some cc =>
       if match presents o with Some v => existsb (onetime_eqb v) (spent s) | None => false end then 2%nat
-      else if expired k (present_cert s (cert_of o)) (cert_of o) (base o) then 3%nat
+      else if expired (cfg_for k o) (present_cert s (cert_of o)) (cert_of o) (base o) then 3%nat
       else if unjustified (proved (fst (step k s o))) cc then 1%nat
       else 0%nat
   end.
